@@ -424,6 +424,17 @@ def c10_graph_update():
     return None if g.shape == (3, 50) else f"graph-mode transform after update has shape {g.shape}"
 
 
+def c13_lld_fractional():
+    """ll_dirichlet on fractional values: the dense metric counts only entries > 0.9, the sparse one every stored entry"""
+    import umap.distances as D
+    import umap.sparse as S
+    x, y = np.array([0.5, 2.0, 0.0, 3.0]), np.array([1.0, 0.5, 2.0, 0.0])
+    ix, iy = np.nonzero(x)[0].astype(np.int32), np.nonzero(y)[0].astype(np.int32)
+    vs = float(S.sparse_ll_dirichlet(ix, x[ix].astype(np.float32), iy, y[iy].astype(np.float32)))
+    vd = float(D.ll_dirichlet(x, y))
+    return None if abs(vs - vd) <= 2e-3 else f"sparse ll_dirichlet = {vs:.4f}, dense ll_dirichlet on the same (fractional) vectors = {vd:.4f}"
+
+
 def c10_csr_copy():
     import umap
     X = _rng(0).normal(size=(60, 5)).astype(np.float32)
@@ -852,6 +863,7 @@ WITNESSES = {
     "C15:symmetric-graph-start-vector": c15_symmetric_path,
     "C10:sparse-training-data-not-recognised": c10_csr_copy,
     "C10:list-n_epochs-transform-typeerror": c10_list_epochs,
+    "C13:ll_dirichlet-fractional-values": c13_lld_fractional,
     "C10:fingerprint-memory-layout": c10_strides,
     "C10:graph-mode-update": c10_graph_update,
     "C05:densmap-isolated-sample": c05_densmap_isolated,
